@@ -326,18 +326,21 @@ def _between_impl(
         ExpressionClauseList._construct_for_list(
             operators.and_,
             type_api.NULLTYPE,
+            # the bounds are operands of BETWEEN: a bound that is itself a
+            # comparison, AND / OR etc. needs its own parenthesis, otherwise
+            # "x BETWEEN a AND b != c" reads as "(x BETWEEN a AND b) != c"
             coercions.expect(
                 roles.BinaryElementRole,
                 cleft,
                 expr=expr,
                 operator=operators.and_,
-            ),
+            ).self_group(against=op),
             coercions.expect(
                 roles.BinaryElementRole,
                 cright,
                 expr=expr,
                 operator=operators.and_,
-            ),
+            ).self_group(against=op),
             group=False,
         ),
         op,
